@@ -54,7 +54,7 @@ class Check(CheckBase):
             cases.append({'kind': 'xproc', 'seed': r.randrange(1 << 30),
                           'settings': gen.gen_settings(r, encrypted=i % 3 != 2, chunker=r.choice([(8, 64), (16, 257), (5, 10)])),
                           'concurrent': r.choice([1, 3, 8])})
-        for i in range(4 if quick else 60):
+        for i in range(8 if quick else 240):
             cases.insert(i, {'kind': 'cli', 'seed': random.Random(f'C07/{self.seed}/cli/{i}').randrange(1 << 30), 'timeout': 900})
         return cases
 
